@@ -380,7 +380,8 @@ def write_replay(check_id, seed, entry, minimised_case, violation, sig):
            'case': minimised_case, 'original_case': entry['case'],
            'clause': violation.get('clause'), 'config': violation.get('config'),
            'expected': violation.get('expected'), 'observed': violation.get('observed'),
-           'signature': sig, 'digest': violation_digest(minimised_case, violation)}
+           'signature': sig, 'digest': violation_digest(minimised_case, violation),
+           'violation_detail': {k: v for k, v in violation.items() if k not in ('config', 'expected', 'observed')}}
     path.write_text(json.dumps(doc, indent=1, default=_default))
     return path
 
